@@ -292,6 +292,8 @@ def check_dispatch(res, T, per_ctx, O):
             evs = []
             if t['k'] == 'call':
                 evs.append(('call', t, fn.call_tree(t)))
+                if t['dest']['l'] == 0 and not t['dest'].get('p'):
+                    evs.append(('ret', t, fn.call_tree(t)))   # a value returned straight out of a call
             for i, s in enumerate(fn.blocks[b]['s']):
                 if s['k'] == 'assign' and s['lhs']['l'] == 0 and not s['lhs'].get('p'):
                     evs.append(('ret', s, fn.rvalue_tree(s['rv'])))
